@@ -355,6 +355,9 @@ func main() {
 			if rule.Len == 0 {
 				rule.Len = r.Len
 			}
+			if rule.LastRow == "" {
+				rule.LastRow = r.LastRow
+			}
 			if rule.Threads == 0 {
 				rule.Threads = r.Threads
 			}
@@ -371,6 +374,7 @@ func main() {
 	}
 	spec.EmptyPct = rule.EmptyPct
 	spec.ForceLen = rule.Len
+	spec.LastRow = rule.LastRow
 	if rule.Bools != "" {
 		b := rule.Bools == "true"
 		spec.ForceBool = &b
